@@ -318,3 +318,45 @@ func (t *toks) ents() []Ent {
 	}
 	return es
 }
+
+// specReadArchive reads a whole archive with the independent decoders: header, then the directory tree
+// from the root, returning the tile entries in tree order.
+func specReadArchive(b []byte) (Hdr, []Ent, error) {
+	h, err := specDecodeHeader(b)
+	if err != nil {
+		return h, nil, err
+	}
+	dec := func(off, l uint64) ([]Ent, error) {
+		if off+l > uint64(len(b)) || off+l < off {
+			return nil, fmt.Errorf("directory [%d,+%d) outside the file", off, l)
+		}
+		raw := b[off : off+l]
+		if h.IntComp == 2 {
+			if raw, err = gunz(raw); err != nil {
+				return nil, err
+			}
+		}
+		return specDecodeDir(raw)
+	}
+	var out []Ent
+	var walk func(off, l uint64, depth int) error
+	walk = func(off, l uint64, depth int) error {
+		if depth > 4 {
+			return errors.New("too deep")
+		}
+		es, err := dec(off, l)
+		if err != nil {
+			return err
+		}
+		for _, e := range es {
+			if e.Run > 0 {
+				out = append(out, e)
+			} else if err := walk(h.LeafOff+e.Off, uint64(e.Len), depth+1); err != nil {
+				return err
+			}
+		}
+		return nil
+	}
+	err = walk(h.RootOff, h.RootLen, 0)
+	return h, out, err
+}
